@@ -750,7 +750,7 @@ def generators_consumed_twice(func: ast.AST) -> List[str]:
 _inl_counter = [0]
 
 
-def _callee_of(mod: Module, cls: Optional[str], call: ast.Call):
+def _callee_of(mod: Module, cls: Optional[str], call: ast.Call, scope: Optional[str] = None):
     """(FunctionDef, skip_first_param) for self._m(..) / cls._m(..) / ClassName._m(..) of the same class and for module-level _f(..)"""
     f = call.func
     if isinstance(f, ast.Attribute) and isinstance(f.value, ast.Name) and cls is not None and (f.value.id in ("self", "cls") or f.value.id == cls):
@@ -760,10 +760,18 @@ def _callee_of(mod: Module, cls: Optional[str], call: ast.Call):
             if any(k in x for x in decos for k in ("cache", "property", "timeit")):
                 return None
             return d, (0 if "staticmethod" in decos else 1)
-    if isinstance(f, ast.Name) and f.id.startswith("_"):
-        d = mod.functions.get(f.id)
+    if isinstance(f, ast.Name):
+        d = mod.functions.get(f.id) if f.id.startswith("_") else None
         if d is None:
-            for q, cand in mod.functions.items():          # a helper nested in the function being analysed (or in its class method)
+            # a helper nested in the function being analysed or in one of its enclosing functions (a closure: any name)
+            parts = (scope or "").split(".")
+            for k in range(len(parts), 0, -1):
+                cand = mod.functions.get(".".join(parts[:k] + [f.id]))
+                if cand is not None and k >= (2 if cls is not None else 1):
+                    d = cand
+                    break
+        if d is None and f.id.startswith("_"):
+            for q, cand in mod.functions.items():
                 if q.endswith("." + f.id) and cand.name == f.id:
                     d = cand
         if d is not None and not d.decorator_list:
@@ -771,13 +779,13 @@ def _callee_of(mod: Module, cls: Optional[str], call: ast.Call):
     return None
 
 
-def inline_helpers(mod: Module, func: ast.FunctionDef, depth: int = 2, only_private: bool = True) -> ast.FunctionDef:
+def inline_helpers(mod: Module, func: ast.FunctionDef, depth: int = 2, only_private: bool = True, qual: Optional[str] = None, exclude: Tuple[str, ...] = ()) -> ast.FunctionDef:
     """a COPY of func in which statement-level calls of private helpers of the same class / module are replaced by the helper's body
     (parameters substituted by the argument expressions, the helper's locals renamed).  Handled call forms:  `helper(...)` as a statement,
     `x = helper(...)` and `return helper(...)` when the helper's only `return <expr>` is its last statement.  Anything else is left as a call.
     The parent map of `mod` is extended with the new nodes so that rules can keep using mod.parent / mod.loc."""
     import copy as _copy
-    qual = mod.qualname_of(func)
+    qual = qual or mod.qualname_of(func)
     cls = qual.split(".")[0] if "." in qual and qual.split(".")[0] in mod.classes else None
     out = _copy.deepcopy(func)
 
@@ -801,13 +809,14 @@ def inline_helpers(mod: Module, func: ast.FunctionDef, depth: int = 2, only_priv
         return None
 
     def expand(call: ast.Call, kind: str, target) -> Optional[List[ast.stmt]]:
-        res = _callee_of(mod, cls, call)
+        res = _callee_of(mod, cls, call, qual)
         if res is None:
             return None
         d, skip = res
-        if only_private and not d.name.startswith("_"):
+        is_closure = mod.qualname_of(d).count(".") >= (2 if cls is not None else 1)
+        if only_private and not d.name.startswith("_") and not is_closure:
             return None
-        if d is func or d.name == func.name:
+        if d is func or d.name == func.name or d.name in exclude:
             return None
         sr = simple_returns(d)
         if sr is None or (kind != "expr" and sr is not True):
@@ -834,16 +843,18 @@ def inline_helpers(mod: Module, func: ast.FunctionDef, depth: int = 2, only_priv
         if body and isinstance(body[0], ast.Expr) and isinstance(body[0].value, ast.Constant) and isinstance(body[0].value.value, str):
             body = body[1:]
         assigned = {t.id for st in body for t, v, s_ in assignments(st) if isinstance(t, ast.Name)}
+        outer_names = {nm for st in body for n in ast.walk(st) if isinstance(n, (ast.Nonlocal, ast.Global)) for nm in n.names}
         for st in body:
             for n in ast.walk(st):
                 if isinstance(n, (ast.For, ast.comprehension)):
                     for x in ast.walk(n.target):
                         if isinstance(x, ast.Name):
                             assigned.add(x.id)
+        assigned -= outer_names          # names of the enclosing scope keep their identity
         pre: List[ast.stmt] = []
         subst: Dict[str, ast.expr] = {}
         for p_, v in bound.items():
-            if p_ in assigned or not isinstance(v, (ast.Name, ast.Attribute, ast.Constant, ast.Subscript)):
+            if p_ in assigned or not (isinstance(v, (ast.Name, ast.Attribute, ast.Constant, ast.Subscript)) or (isinstance(v, ast.UnaryOp) and isinstance(v.operand, ast.Constant))):
                 nm = p_ + sfx
                 pre.append(ast.copy_location(ast.Assign(targets=[ast.Name(id=nm, ctx=ast.Store())], value=_copy.deepcopy(v)), call))
                 subst[p_] = ast.Name(id=nm, ctx=ast.Load())
@@ -899,8 +910,8 @@ def inline_helpers(mod: Module, func: ast.FunctionDef, depth: int = 2, only_priv
         for c in ast.walk(val):
             if c is val or not isinstance(c, ast.Call):
                 continue
-            res_ = _callee_of(mod, cls, c)
-            if res_ is None or not res_[0].name.startswith("_") or simple_returns(res_[0]) is not True:
+            res_ = _callee_of(mod, cls, c, qual)
+            if res_ is None or res_[0].name in exclude or not (res_[0].name.startswith("_") or "." in mod.qualname_of(res_[0]).replace((cls or "") + ".", "", 1)) or simple_returns(res_[0]) is not True:
                 continue
             _inl_counter[0] += 1
             tmp = f"__hoist{_inl_counter[0]}"
